@@ -1,13 +1,14 @@
 #!/bin/bash
 # evalmutant.sh <diff> <prop> [<prop>...] : apply a seeded change in a scratch worktree of /repo (never in /repo itself),
 # run the quick checks against that worktree, remove the worktree and its build output.
+HERE=$(cd "$(dirname "$0")/.." && pwd)
 DIFF=$(readlink -f $1); shift
 NAME=$(basename $(dirname $DIFF))-$(basename $DIFF .diff)-$$
 WT=/tmp/ev-$NAME
 git -C /repo worktree add -q --detach $WT HEAD || exit 2
 if ! git -C $WT apply $DIFF; then echo "EVAL $DIFF: patch does not apply"; git -C /repo worktree remove --force $WT; exit 2; fi
 for p in "$@"; do
-  OUT=$(cd /verif && ZOG_REPO=$WT VERIF_BUILD=$WT-build VERIF_EVID=$WT-evid timeout 1800 bin/check $p ${TIER:-quick} 2>&1); RC=$?
+  OUT=$(cd $HERE && ZOG_REPO=$WT VERIF_BUILD=$WT-build VERIF_EVID=$WT-evid timeout 1800 bin/check $p ${TIER:-quick} 2>&1); RC=$?
   echo "EVAL $(basename $(dirname $DIFF))/$(basename $DIFF) $p rc=$RC $(echo "$OUT" | grep -c VIOLATION) violations; first: $(echo "$OUT" | grep -m1 -A1 VIOLATION | tr '\n' ' ' | cut -c1-420) $(echo "$OUT" | grep -m1 INCONCLUSIVE | cut -c1-300)"
 done
 git -C /repo worktree remove --force $WT; rm -rf $WT-build $WT-evid
